@@ -215,7 +215,12 @@ func oneGeneration(w *World, sc *scenario, r *rand.Rand, first bool) (done bool)
 		}()
 	}
 	// shutdown(s)
-	hs := []int{w.Shutdown()}
+	// Shutdown() -- the entry point without a context -- unless a ctx has to expire
+	shut := w.Shutdown
+	if !sc.Ctx && sc.Seed%2 == 0 {
+		shut = w.ShutdownPlain
+	}
+	hs := []int{shut()}
 	if sc.ConcShut {
 		hs = append(hs, w.Shutdown())
 	}
